@@ -7,4 +7,5 @@ for p in "$@"; do
   echo "  -> $p rc=$?"
 done
 git -C /repo checkout -- .
+git -C /verif checkout -- evidence 2>/dev/null
 git -C /repo status --short | head -3
